@@ -98,7 +98,10 @@ def worklist_programs(dev):
         {"op": "transfer", "src": P, "sw": L([(1, 0)]), "dst": P, "dw": L([(2, 0)]), "vols": S(2), "label": "d2", "wash": 1},
         {"op": "transfer", "src": P, "sw": L([(2, 0)]), "dst": P, "dw": L([(2, 0)]), "vols": S(1), "label": "mix", "wash": "reuse"},
         {"op": "transfer", "src": P, "sw": L([(2, 0)]), "dst": Sx, "dw": L([(0, 1)]), "vols": S(2), "label": "empty it", "wash": 1},
-        {"op": "transfer", "src": P, "sw": L([(0, 0), (1, 0)]), "dst": P, "dw": L([(2, 0), (2, 0)]), "vols": L([0, 2]), "label": "refill", "wash": 1},
+        # the drained well is refilled with a liquid that shares no component with what it held before
+        {"op": "transfer", "src": T, "sw": L([(2, 0)]), "dst": P, "dw": L([(2, 0)]), "vols": S(2), "label": "refill with another liquid", "wash": 1},
+        {"op": "transfer", "src": P, "sw": L([(0, 0), (1, 0)]), "dst": P, "dw": L([(2, 0), (2, 0)]), "vols": L([0, 2]), "label": "top up", "wash": 1},
+        {"op": "distribute", "src": T, "col": 1, "dst": Sx, "dw": L([(0, 1), (0, 3)]), "vol": 1, "label": "into the drained strip well"},
         {"op": "transfer", "src": P, "sw": L([(0, 0)]), "dst": P, "dw": L([(0, 1)]), "vols": S(0), "label": "nothing", "wash": 1},
     ], wlmax=2)
     # DiTi mode and flush, wash 4
@@ -201,6 +204,19 @@ def fault_programs(dev):
     prog("dispense-overflow-2nd", [warm, {"op": "dispense", "lw": P, "wells": L([(0, 1), (1, 2)]), "vols": L([2, 2]), "label": "d"}])
     prog("aspirate-oversized-2nd", [warm, {"op": "aspirate", "lw": T, "wells": L([(0, 0), (1, 0)]), "vols": L([3, 7]), "label": "a"}], wlmax=5)
     prog("dispense-oversized", [warm, {"op": "dispense", "lw": T, "wells": L([(0, 0)]), "vols": S(6), "label": None}], wlmax=5)
+    # large vessels: a limit must not be softened by a relative tolerance
+    big = [gen.mk_plate("waste", 1, 2, 100000, 25000000, [24999000, 100500]), gen.mk_trough("res", 8, 1, 1000000, 250000000, [249999990])]
+    for name, ops in [
+        ("large-overflow", [{"op": "transfer", "src": 1, "sw": L([(0, 0)]), "dst": 0, "dw": L([(0, 0)]), "vols": S(1000), "label": "to the limit", "wash": 1},
+                            {"op": "transfer", "src": 1, "sw": L([(1, 0)]), "dst": 0, "dw": L([(0, 0)]), "vols": S(2), "label": "2 beyond", "wash": 1}]),
+        ("large-underflow", [{"op": "aspirate", "lw": 0, "wells": L([(0, 1)]), "vols": S(500), "label": "to min"},
+                             {"op": "aspirate", "lw": 0, "wells": L([(0, 1)]), "vols": S(1), "label": "1 below min"}]),
+        ("large-distribute", [{"op": "distribute", "src": 1, "col": 0, "dst": 0, "dw": L([(0, 0)]), "vol": 1000, "label": "fill"},
+                              {"op": "distribute", "src": 1, "col": 0, "dst": 0, "dw": L([(0, 0)]), "vol": 3, "label": "3 beyond"}]),
+    ]:
+        h = _hdr(f"faults/{name}", dev, [dict(x) for x in big], wlmax=1000, flags={"comp": False, "norm": False})
+        h["ops"] = ops
+        progs.append(h)
     return progs
 
 
